@@ -162,6 +162,12 @@ func (s *server) Follow(f *common.Follow, stream grpc.ServerStream) error {
 }
 
 func (s *server) HandleRemoteQueries(r *rpc.RegisterQueryHandler, stream grpc.ServerStream) error {
+	// Whoever registers as a query handler gets to see the queries for that
+	// partition and to supply their results
+	if authorizeErr := s.authorize(stream); authorizeErr != nil {
+		return authorizeErr
+	}
+
 	initialResultCh := make(chan *rpc.RemoteQueryResult)
 	initialErrCh := make(chan error, 1)
 	finalErrCh := make(chan error, 1)
